@@ -14,7 +14,7 @@ from dsim.core import Violation
 ENDING = ("shutdown", "close", "remove_socket", "bind")
 VOPS = ["raw_recv", "raw_poll", "raw_send", "ldl_recvfrom", "ldl_poll", "ldl_sendto", "dlc_recv", "dlc_send",
         "dlc_poll_acks", "dlc_poll_recv", "dlc_accept", "dlc_connect", "dlc_connect_name", "resolve", "dlc_close",
-        "dlc_poll_send", "ldl_poll_send"]
+        "dlc_poll_send", "ldl_poll_send", "double_close"]
 CAUSES = ["terminate", "disc", "disrupt", "ioerror"]
 MAX_I, MAX_J = 48, 160
 
@@ -44,10 +44,15 @@ def one(nfc, sim, sc, park_at, release_at):
     st = {"broken": False, "ready": False, "terminate": {"I": False, "T": False}, "exchanges_after_ready": 0}
     ended = kernel.SimEvent(k)
     errors, loop_end, label = [], {}, {}
-    k.set_handoff(park_at, release_at, ENDING)
+    k.set_handoff(park_at, release_at, ENDING if op != "double_close" else
+                  ENDING + ("_bind_by_none", "_bind_by_addr", "recvfrom", "recv", "insert_socket"))
+    if op == "double_close":
+        # victim: second thread closing a socket; trigger: a third thread that binds a fresh socket (same address) and waits
+        k.handoff["release_on_block"] = True
+        st["hold"] = True
 
     def hook(direction, data):
-        if st["ready"] and not st["broken"]:
+        if st["ready"] and not st["broken"] and not st.get("hold"):
             h = k.handoff
             v = h["victim"]
             settled = v is not None and (h["state"] == 1 or (v.state == kernel.BLOCKED and h["vfirst"] is not None))
@@ -123,7 +128,12 @@ def one(nfc, sim, sc, park_at, release_at):
             st["ready"] = True
             k.handoff_arm()
             return call()
-        if op.startswith("raw"):
+        if op == "double_close":
+            s = nfc.llcp.Socket(llc, LDL)
+            s.bind()
+            st["s1"] = s
+            armed("close(socket that another thread closes too)", s.close)
+        elif op.startswith("raw"):
             s = nfc.llcp.Socket(llc, RAW)
             s.bind(20)
             if op == "raw_recv":
@@ -212,14 +222,38 @@ def one(nfc, sim, sc, park_at, release_at):
                 loop_end[side] = k.now()
         loops = {"I": k.spawn(loop, pair.I, "I", name="llc-run-I", node="I"),
                  "T": k.spawn(loop, pair.T, "T", name="llc-run-T", node="T")}
-        k.handoff["trigger"] = loops[V]
+        k.handoff["trigger"] = loops[V] if op != "double_close" else None
         k.spawn(guard("peer_echo", peer_echo), name="peer_echo", node=P)
         k.spawn(guard("peer_sink", peer_sink), name="peer_sink", node=P)
         k.spawn(guard("peer_listen", peer_listen_only), name="peer_listen", node=P)
         kernel.TIME.sleep(0.05)
         if sc["extra_waiter"]:
             k.spawn(guard("extra", extra_waiter), name="extra", node=V)
-        k.spawn(guard("victim", victim), name="victim", node=V)
+        tv = k.spawn(guard("victim", victim), name="victim", node=V)
+        if op == "double_close":
+            def closer():
+                label["closerA"] = "close(s1)"
+                st["s1"].close()
+
+            def binder():
+                s2 = nfc.llcp.Socket(vllc, nfc.llcp.LOGICAL_DATA_LINK)
+                label["binder"] = "bind(fresh socket)"
+                s2.bind()
+                label["binder"] = "recvfrom(fresh socket)"
+                s2.recvfrom()
+            t1 = k.now()
+            while k.handoff["state"] == 0 and tv.state != kernel.DONE and k.now() - t1 < 2.0:
+                kernel.TIME.sleep(0.005)
+            if "s1" in st:
+                ta = k.spawn(guard("closerA", closer), name="closerA", node=V)
+                while ta.state != kernel.DONE and k.now() - t1 < 4.0:
+                    kernel.TIME.sleep(0.005)
+            tb = k.spawn(guard("binder", binder), name="binder", node=V)
+            k.handoff["trigger"] = tb
+            while tv.state != kernel.DONE and k.now() - t1 < 8.0:
+                kernel.TIME.sleep(0.01)
+            kernel.TIME.sleep(0.05)
+            st["hold"] = False
         t0 = k.now()
         while any(t.state != kernel.DONE for t in loops.values()) and k.now() - t0 < 40.0:
             kernel.TIME.sleep(0.05)
@@ -273,7 +307,7 @@ def judge(sim, sc, cell, r):
             ("blocked at termination: %s@%s" % (lab or "?", where_fn))
         vs.append(Violation("blocked-forever", site,
                             "link ended by %s but %s never returns: blocked on %s at %s while in %s; directed schedule: the "
-                            "thread was descheduled at its line %s of the call and resumed when the link loop had executed "
+                            "thread was descheduled at its line %s of the call and resumed when the link loop (double_close: the binding thread) had executed "
                             "%s lines of the termination code (resumed by: %s); all stuck: %r; %r"
                             % (sc["cause"], name, wait_on, where, lab, cell and cell[0], cell and cell[1],
                                r.get("released_by"), [(s[0], s[2]) for s in r["stuck"]], desc), ov))
